@@ -129,6 +129,26 @@ Theorem late_override_refuted :
     end.
 Proof. exact late_override_refuted_lemma. Qed.
 
+(* merging the file's entry into the in-memory entry of the same address: saturating u32 sums (restarted at
+   the maximum), so no counter value -- 0, 1, u32::MAX-1, u32::MAX -- can overflow; with plain `+=` it would *)
+Theorem sync_counters_bounded : forall self other,
+  a_s self <= U32MAX -> a_f self <= U32MAX ->
+  a_s (arec_sync self other) <= U32MAX /\ a_f (arec_sync self other) <= U32MAX.
+Proof. exact arec_sync_bounded_lemma. Qed.
+
+Theorem sync_wrapping_refuted :
+  let file := mk 1 1 pA 4294967295 0 10 in let mem := mk 1 1 pA 1 0 20 in
+  arec_sync_unchecked Debug mem file = Panic /\
+  (exists r, arec_sync_unchecked Release mem file = Ok r /\ a_s r = 0) /\
+  arec_sync mem file = mk 1 1 pA 1 0 20.
+Proof. exact sync_wrapping_refuted_lemma. Qed.
+
+(* a parse-failure message must not slice the file's text at a fixed byte offset *)
+Theorem log_head_slice_refuted :
+  let t := append (of_codes (repeat 35 63)) (of_codes [195; 164]) in
+  slen t = 65 /\ log_head t = Panic /\ log_head (of_codes (repeat 35 64)) = Ok (of_codes (repeat 35 64)).
+Proof. exact log_head_slice_refuted_lemma. Qed.
+
 (* ---- atomic replacement (premise built into `fs_do`: Commit = rename replaces the target in one step,
    temporary files are private to their writer) *)
 Theorem atomic_replace : forall (valid : string -> Prop) init steps,
